@@ -117,3 +117,85 @@ func TestC06GraphTopoRandom(t *testing.T) {
 		}
 	})
 }
+
+// TestC06GraphAfterRejects: the graph a topological order is asked of has a
+// history: adds that were refused because they would have closed a cycle
+// (and whose dependencies had no node of their own yet) leave nothing behind.
+func TestC06GraphAfterRejects(t *testing.T) {
+	col := evid.New("C06", "graph-topo-after-rejects", "random DAGs on 3..10 nodes inserted in a random order, each node through AddProvider or AddProviderDeferred; before any insertion up to 3 cyclic AddProvider calls (a provider that needs itself next to random other nodes, provided or not yet provided) are made and must be refused; after all insertions TopologicalSort (twice), DetectCycles and the depth/reachability queries are validated against the reference digraph, which the refused adds did not change; non-trivial = a refused add named a node that had no provider yet and was provided later")
+	defer col.Flush()
+	rapid.Check(t, func(rt *rapid.T) {
+		n := rapid.IntRange(3, 10).Draw(rt, "n")
+		rank := rapid.Permutation(seq(n)).Draw(rt, "rank")
+		density := rapid.IntRange(20, 80).Draw(rt, "density")
+		depsOf := make([][]int, n)
+		for v := 0; v < n; v++ {
+			for w := 0; w < n; w++ {
+				if rank[w] < rank[v] && rapid.IntRange(0, 99).Draw(rt, "e") < density {
+					depsOf[v] = append(depsOf[v], w)
+				}
+			}
+		}
+		order := rapid.Permutation(seq(n)).Draw(rt, "order")
+		s := newGSys(n)
+		added := map[int]bool{}
+		placeholderLater := false
+		var hist []string
+		for _, v := range order {
+			for k := rapid.IntRange(0, 3).Draw(rt, "rejects"); k > 0; k-- {
+				x := rapid.IntRange(0, n-1).Draw(rt, "x")
+				deps := []int{x}
+				for w := 0; w < n; w++ {
+					if w != x && rapid.IntRange(0, 3).Draw(rt, "rd") == 0 {
+						deps = append(deps, w)
+						if !added[w] {
+							placeholderLater = true
+						}
+					}
+				}
+				if rapid.Bool().Draw(rt, "selfLast") {
+					deps = append(deps[1:], x)
+				}
+				rej, err := s.addImmediate(x, deps)
+				hist = append(hist, fmt.Sprintf("reject %d<-%v", x, deps))
+				if err != nil {
+					rt.Fatalf("%v: %v", hist, err)
+				}
+				if !rej {
+					rt.Fatalf("%v: AddProvider(%d<-%v) needs itself and was accepted", hist, x, deps)
+				}
+			}
+			if rapid.Bool().Draw(rt, "deferred") {
+				hist = append(hist, fmt.Sprintf("deferred %d<-%v", v, depsOf[v]))
+				if err := s.addDeferred(v, depsOf[v]); err != nil {
+					rt.Fatalf("%v: %v", hist, err)
+				}
+			} else {
+				hist = append(hist, fmt.Sprintf("add %d<-%v", v, depsOf[v]))
+				if rej, err := s.addImmediate(v, depsOf[v]); err != nil || rej {
+					rt.Fatalf("%v: rejected=%v err=%v", hist, rej, err)
+				}
+			}
+			added[v] = true
+			if rapid.IntRange(0, 3).Draw(rt, "mid") == 0 {
+				if s.pending {
+					if err := s.detect(); err != nil {
+						rt.Fatalf("%v: %v", hist, err)
+					}
+				}
+				if err := s.checkQueries(); err != nil {
+					rt.Fatalf("%v: %v", hist, err)
+				}
+			}
+		}
+		if s.pending {
+			if err := s.detect(); err != nil {
+				rt.Fatalf("%v: %v", hist, err)
+			}
+		}
+		col.Case(placeholderLater, fmt.Sprint(hist), fmt.Sprint(hist))
+		if err := s.checkQueries(); err != nil {
+			rt.Fatalf("%v: %v", hist, err)
+		}
+	})
+}
